@@ -279,6 +279,32 @@ def build_leg():
         lock.close()
 
 
+# Statement files whose theorems are ABOUT real numbers may depend on the axioms the standard library itself declares for
+# its real numbers (and nothing else); every name is listed in the trusted base (DESIGN section 8, T0a).  All other
+# statement files must be closed under the global context.
+STDLIB_AXIOMS_ALLOWED = {
+    "C01FloatDiv": {"ClassicalDedekindReals.sig_not_dec", "ClassicalDedekindReals.sig_forall_dec",
+                    "FunctionalExtensionality.functional_extensionality_dep", "Classical_Prop.classic"},
+}
+
+
+def axioms_in_print_assumptions(txt: str):
+    """names listed under every `Axioms:` block of a captured Print Assumptions output"""
+    names, inside = [], False
+    for ln in txt.splitlines():
+        if ln.startswith("Axioms:"):
+            inside = True
+            continue
+        if inside:
+            if not ln.strip() or ln.startswith("Closed under") or re.match(r"^(Section Variables|Opaque|Transparent|Theory)\b", ln):
+                inside = False
+                continue
+            m = re.match(r"^([A-Za-z_][\w.']*)\s*(?::|$)", ln)
+            if m and not ln.startswith(" "):
+                names.append(m.group(1))
+    return names
+
+
 def proof_leg(prop: str):
     """facts about Props/<prop>*.v (e.g. C02.v and C02Refine.v): theorem count, compiled, gate, Print Assumptions output"""
     pdir = COQ_DIR / "theories" / "Props"
@@ -311,8 +337,14 @@ def proof_leg(prop: str):
             txt = af.read_text()
             info["assumptions"] += f"--- {pf.name}\n" + txt
             closed += txt.count("Closed under the global context")
-            if "Axioms:" in txt or "Admitted" in txt:
-                info["problems"].append(f"{pf.name}: Print Assumptions reports axioms")
+            allowed = STDLIB_AXIOMS_ALLOWED.get(pf.stem, set())
+            used = axioms_in_print_assumptions(txt)
+            bad = [a for a in used if a not in allowed]
+            if allowed:
+                closed += len(re.findall(r"^Axioms:", txt, flags=re.M))     # theorems resting on allowed stdlib axioms only
+                info.setdefault("stdlib_axioms_used", sorted(set(used) & allowed))
+            if bad or "Admitted" in txt or ("Axioms:" in txt and not allowed):
+                info["problems"].append(f"{pf.name}: Print Assumptions reports axioms" + (": " + ", ".join(sorted(set(bad))[:6]) if bad else ""))
         else:
             info["problems"].append(f"Print Assumptions capture missing for {pf.name}")
     info["obligations"] = len(info["theorems"])
@@ -356,8 +388,16 @@ def coqchk_leg(prop: str, timeout=10800):
                            cwd=str(COQ_DIR), capture_output=True, text=True, timeout=timeout)
         out = (r.stdout + r.stderr)
         tail = out[-1500:]
-        ok = r.returncode == 0 and "Axioms: <none>" in out.replace("\n", " ")
-        return {"ran": True, "ok": ok, "exit": r.returncode, "summary": tail}
+        flat = out.replace("\n", " ")
+        allowed = set().union(*[STDLIB_AXIOMS_ALLOWED.get(m.rsplit(".", 1)[1], set()) for m in mods]) if mods else set()
+        listed_ax = []
+        m_ax = re.search(r"\* Axioms:(.*?)\n\s*\n\* ", out, flags=re.S)
+        if m_ax and "<none>" not in m_ax.group(1):
+            listed_ax = m_ax.group(1).split()
+        # coqchk prints fully qualified names (Coq.Reals.ClassicalDedekindReals.sig_not_dec)
+        bad = [a for a in listed_ax if not any(a.endswith("." + b) or a == b for b in allowed)]
+        ok = r.returncode == 0 and ("Axioms: <none>" in flat or (bool(listed_ax) and not bad))
+        return {"ran": True, "ok": ok, "exit": r.returncode, "summary": tail, "axioms_listed": listed_ax, "axioms_not_allowed": bad}
     except subprocess.TimeoutExpired:
         return {"ran": True, "ok": False, "exit": None, "summary": "coqchk timed out"}
     except FileNotFoundError:
